@@ -3,6 +3,7 @@
 import asyncio
 import json
 import logging
+import os
 from os import path
 from pathlib import Path
 
@@ -49,8 +50,24 @@ class FileStorage(AbstractStorage):
         dumped = self.storage_model.dict(exclude_defaults=True)
         dumped["devices"] = [device for device in dumped["devices"] if device != {}]
 
-        with open(self._filename, "w", encoding="utf-8") as _fh:
-            _fh.write(json.dumps(dumped) + "\n")
+        # Never write the settings file in place: a crash between truncating and
+        # finishing the write would leave an empty or partial file (and lose all
+        # stored credentials). Write a temporary file in the same directory, make
+        # sure the data has reached the disk and atomically replace the target.
+        content = json.dumps(dumped) + "\n"
+        tmp_filename = f"{self._filename}.tmp{os.getpid()}"
+        try:
+            with open(tmp_filename, "w", encoding="utf-8") as _fh:
+                _fh.write(content)
+                _fh.flush()
+                os.fsync(_fh.fileno())
+            os.replace(tmp_filename, self._filename)
+        except BaseException:
+            try:
+                os.unlink(tmp_filename)
+            except OSError:
+                pass
+            raise
 
     async def load(self) -> None:
         """Load settings from active storage."""
